@@ -257,21 +257,36 @@ def keyGet3Spec (k p v : Str) : Option Str :=
     | none => []
     | some caps => (((namesVar varLenBraceLazy nameBrace 0 p).zip caps).lookup v).getD []
 
-/-! ## ipMatch -/
+/-! ## ipMatch
 
-/-- membership of address `x` in the block of `y` with prefix length `len`: the leading `len` bits agree -/
-def sameBlock (len x y : Nat) : Bool := x / 2 ^ (32 - len) == y / 2 ^ (32 - len)
+An address text denotes a family (IPv4: 32 bits, IPv6: 128 bits) and a number (`parseAddr`: dotted quad, or the
+RFC 4291 text forms with an optional `%zone`). A pattern denotes a family, a number and a prefix length: an address
+text (the length is the family's width: a single address), or `address/len` with `0 ≤ len ≤ width`. The pattern
+denotes the block of the addresses OF ITS FAMILY whose leading `len` bits equal its own. -/
+
+/-- membership of address `x` in the block of `y` with prefix length `len`, for addresses of `w` bits:
+    the leading `len` bits agree -/
+def sameBlock (w len x y : Nat) : Bool := x / 2 ^ (w - len) == y / 2 ^ (w - len)
+
+/-- what a pattern denotes: (family, address, prefix length); `none` = not a documented pattern -/
+def blockDen (b : Str) : Option (Fam × Nat × Nat) :=
+  match splitOn '/' b with
+  | [addr] =>
+    (match parseAddr addr with
+     | some (f, y) => some (f, y, f.width)
+     | none => none)
+  | [addr, m] =>
+    (match parseAddr addr with
+     | some (f, y) =>
+       (match parsePrefixW f.width m with
+        | some len => some (f, y, len)
+        | none => none)
+     | none => none)
+  | _ => none
 
 def ipSpec (a b : Str) : Option Bool :=
-  match parseV4 a with
-  | none => none
-  | some x =>
-    match splitOn '/' b with
-    | [addr] => (parseV4 addr).map (fun y => sameBlock 32 x y)
-    | [addr, m] =>
-      (match parseV4 addr, parsePrefix m with
-       | some y, some len => some (sameBlock len x y)
-       | _, _ => none)
-    | _ => none
+  match parseAddr a, blockDen b with
+  | some (f, x), some (g, y, len) => some (f == g && sameBlock g.width len x y)
+  | _, _ => none
 
 end Casbin.Builtin.Spec
